@@ -110,6 +110,7 @@ func (f *c13Net) CreateTransaction(_ context.Context, spec network.Template) (da
 type c13Stop struct{}
 
 var errC13Injected = errors.New("c13: injected commit failure")
+var errC13DB = errors.New("c13: injected database error in the clean-up transaction")
 
 type c13Inj struct {
 	mode     string // none fail stop
@@ -143,7 +144,7 @@ func (d *c13Deco) Commit(ctx context.Context, e orm.DIDChangeLog) error {
 		in.sweep()
 	}
 	in.calls++
-	if (in.mode == "fail" || in.mode == "failctx") && d.name == "nuts" {
+	if (in.mode == "fail" || in.mode == "failctx" || in.mode == "failtx2") && d.name == "nuts" {
 		in.fired = true
 		if in.mode == "failctx" && in.cancel != nil {
 			in.cancel() // the request is cancelled / times out while did:nuts is publishing
@@ -177,6 +178,8 @@ func c13ErrClass(err error) string {
 		return "err:exists"
 	case errors.Is(err, didsubject.ErrSubjectNotFound):
 		return "err:nosubject"
+	case errors.Is(err, errC13DB):
+		return "err:db"
 	case errors.Is(err, errC13Injected):
 		return "err:injected"
 	case errors.Is(err, didsubject.ErrKeyAgreementNotSupported):
@@ -581,6 +584,9 @@ func (w *c13World) run(ev c13Ev) (c13Ev, string) {
 		if w.inj.fired {
 			ev.Fault, ev.K = want, wantK
 		}
+		if w.inj.mode == "tx2err" || w.inj.mode == "failtx2" {
+			w.inj.mode = "none" // the DB error hits this operation's clean-up only, not a later sweep
+		}
 		result := c13ErrClass(err) + extra
 		if stopped {
 			result = "stopped"
@@ -808,6 +814,22 @@ func TestVerifC13(t *testing.T) {
 		t.Fatal(err)
 	}
 
+	// "the clean-up transaction fails": a DB error at the first DELETE the operation issues (only transactionHelper's second
+	// transaction and Rollback delete rows of these tables; no sweep runs during such an operation)
+	if err := db.Callback().Delete().Before("gorm:delete").Register("c13:tx2fault", func(tx *gorm.DB) {
+		in := w.inj
+		if in == nil || (in.mode != "tx2err" && in.mode != "failtx2") {
+			return
+		}
+		switch tx.Statement.Table {
+		case "did_change_log", "did_document_version", "did":
+			in.fired = true
+			_ = tx.AddError(errC13DB)
+		}
+	}); err != nil {
+		t.Fatal(err)
+	}
+
 	opsF, err := os.Create(filepath.Join(outDir, "ops.jsonl"))
 	if err != nil {
 		t.Fatal(err)
@@ -905,6 +927,7 @@ func TestVerifC13(t *testing.T) {
 		exec(c13Variants(fmt.Sprintf("l%d", round), legacy, m, rng, false)[0])
 	}
 	c13RequestWorlds(rng, thorough, exec)
+	c13CleanupWorlds(rng, thorough, exec)
 	for i, seq := range fixed {
 		for c, m := range c13Configs {
 			// every cut with both methods; on the single-method nodes every cut of the create, a third of the cuts of the longer ones (quick)
@@ -1008,6 +1031,35 @@ func c13RequestWorlds(rng *rand.Rand, thorough bool, exec func([]c13Ev)) {
 			}
 		}
 		world(m, c13Prefs[rng.Intn(len(c13Prefs))], evs)
+	}
+}
+
+// c13CleanupWorlds: the clean-up transaction of an operation fails with a DB error (with and without a failed did:nuts Commit
+// before it): the caller gets the DB error, versions and change records stay; an early sweep must not touch them, the sweep past
+// the threshold resolves them like a process stop; then the operation is repeated.
+func c13CleanupWorlds(rng *rand.Rand, thorough bool, exec func([]c13Ev)) {
+	n := 0
+	for _, m := range [][]string{{"nuts", "web"}, {"web", "nuts"}, {"nuts"}, {"web"}} {
+		ops := []c13Ev{do("create", "s1", "", ""), do("addsvc", "s1", "A", ""), do("addsvc", "s1", "A", ""), do("updsvc", "s1", "A", "B"), do("delsvc", "s1", "A", ""),
+			do("addkey", "s1", "", ""), do("deact", "s1", "", "")}
+		for oi, op := range ops {
+			for _, f := range []string{"tx2err", "failtx2"} {
+				if !thorough && rng.Intn(3) == 0 {
+					continue
+				}
+				n++
+				evs := []c13Ev{{Op: "cfg", Methods: m, Tag: fmt.Sprintf("tx2:%d:%s", n, f)}}
+				if oi > 0 {
+					evs = append(evs, do("create", "s1", "", ""), do("addsvc", "s1", "A", ""))
+				} else {
+					evs = append(evs, do("addsvc", "s1", "Z", "")) // names s1 for the observations
+				}
+				bad := op
+				bad.Fault = f
+				evs = append(evs, bad, c13Ev{Op: "sweep"}, c13Ev{Op: "tick", D: 70}, c13Ev{Op: "sweep"}, op, do("addsvc", "s1", "C", ""), c13Ev{Op: "tick", D: 70}, c13Ev{Op: "sweep"})
+				exec(evs)
+			}
+		}
 	}
 }
 
